@@ -45,7 +45,7 @@ def gen_limit(rng, cfg, k):
     return lines + body
 
 def run(ctx):
-    ok = ctx.lean(['AmcVerif.Props.C08', 'AmcVerif.Props.C08b'], extra_modules=['AmcVerif.Bridge.VecGlueBridge', 'AmcVerif.Bridge.VecHelpersBridge'])
+    ok = ctx.lean(['AmcVerif.Props.C08', 'AmcVerif.Props.C08b', 'AmcVerif.Props.C01e'], extra_modules=['AmcVerif.Bridge.VecGlueBridge', 'AmcVerif.Bridge.VecHelpersBridge', 'AmcVerif.Bridge.VecAccessBridge'])
     n = 60 if ctx.tier == 'quick' else 500
     if not ok:
         n *= 3
